@@ -365,6 +365,11 @@ class AddrmapRun(object):
         self.boot_failed = None
         self.peer = CtlPeer(sim, handler=self.stack_handler)
         self.proto = TorControlProtocol()
+        if ch.chance(1, 4, 'applistener'):
+            # the application listens for ADDRMAP itself, on the same connection and before the state tracker does
+            sim.probe('stack:application-listens-for-ADDRMAP-too')
+            self.app_heard = []
+            self.proto.post_bootstrap.addCallback(lambda p: (self.proto.add_event_listener('ADDRMAP', self.app_heard.append), p)[1])
         self.state = TorState(self.proto, bootstrap=True)
         self.am = self.state.addrmap
         self.am.scheduler = sim.reactor
